@@ -36,6 +36,12 @@ structure NodeSt where
   pendY : List ImplClaim := []
   /-- monitor: number of secrets handed out by RevokeCurrentCommitment so far. -/
   revoked : Nat := 0
+  /-- monitor: highest height whose secret was handed out by an object that was not `ahead`. -/
+  maxRel : Int := -1
+  /-- monitor: durable heights printed on the node's previous O line. -/
+  lastDur : Int := -1
+  lastRdur : Int := -1
+  lastRpend : Int := -1
 
 structure St where
   caseId : String := "0"
@@ -54,6 +60,8 @@ structure St where
   aheadReleases : Nat := 0
   aheadHazard : Nat := 0
   unmodelledRefusals : Nat := 0
+  staleWrites : Nat := 0
+  staleWritesOlder : Nat := 0
   samples : Nat := 0
   harness : List (String × String) := []
 
@@ -175,6 +183,7 @@ def step (s : St) (line : String) : IO St := do
     let s := { s with releases := s.releases + 1,
                       retrans := s.retrans + (if v.src == "sync" then 1 else 0),
                       aheadReleases := s.aheadReleases + (if v.ahead then 1 else 0) }
+    let ns := if !v.ahead && v.s > ns.maxRel then { ns with maxRel := v.s } else ns
     if s.samples < 6 && v.src == "sync" then
       IO.println s!"SAMPLE case={s.caseId} {line}"
       return setNode { s with samples := s.samples + 1 } x { ns with pendV := ns.pendV ++ [v] }
@@ -255,8 +264,29 @@ def step (s : St) (line : String) : IO St := do
       | [], [] => pure ()
       | _, _ => s ← mismatch s s!"node={x} {opName}: channel_reestablish count differs"
       m := if r == implR || implR == .ok then m' else m
+    -- secondary writer through a STALE handle (model: a key-local writer re-reads the channel and
+    -- changes nothing of the commitment / revocation state, `StaleWrite.lean`): monitor from the
+    -- durable state re-read after the write, from the trace alone
+    let durNow := (kvInt? rest "dur").getD (-1)
+    let rdurNow := (kvInt? rest "rdur").getD (-1)
+    let rpendNow := (kvInt? rest "rpend").getD (-1)
+    if opName == "stalewrite" then
+      let w := (kv? rest "w").getD "?"
+      let hage := (kvInt? rest "hage").getD (-1)
+      s := { s with staleWrites := s.staleWrites + 1,
+                    staleWritesOlder := s.staleWritesOlder + (if hage < ns.lastDur then 1 else 0) }
+      let tag := s!"node={x} writer={w} handle_loaded_at_height={hage}"
+      if durNow ≤ ns.maxRel then
+        s ← monitor s "release-before-durable" s!"{tag}: after the write the durable local commitment height is {durNow} although the secret of height {ns.maxRel} has been handed out"
+      if ns.lastDur ≥ 0 && (durNow != ns.lastDur || rdurNow != ns.lastRdur || rpendNow != ns.lastRpend) then
+        s ← monitor s "stale-handle-rollback" s!"{tag}: a writer of one fact changed the durable commitments: local {ns.lastDur}→{durNow}, remote {ns.lastRdur}→{rdurNow}, pending {ns.lastRpend}→{rpendNow}"
+      if (kvNat? rest "rev_same").getD 1 == 0 then
+        s ← monitor s "stale-handle-rollback" s!"{tag}: the durable revocation state (store / producer / remote points) was rewritten"
+      if (kvInt? rest "look_ok").getD 0 != (kvInt? rest "look_want").getD 0 then
+        s ← monitor s "stale-handle-rollback" s!"{tag}: the durable store reproduces {(kvInt? rest "look_ok").getD 0} of the {(kvInt? rest "look_want").getD 0} secrets received from the peer"
     let (s', m') ← compareViews s x m rest lcGone
-    return setNode s' x { ns with m := m', pendV := [], pendY := [] }
+    return setNode s' x { ns with m := m', pendV := [], pendY := [], lastDur := durNow,
+                                  lastRdur := rdurNow, lastRpend := rpendNow }
   | [] => return s
   | _ => mismatch s s!"unparsed line: {line.take 60}"
 
@@ -273,6 +303,8 @@ def report (s : St) : IO Unit := do
   IO.println s!"STAT rel_releases_by_ahead_object={s.aheadReleases}"
   IO.println s!"STAT rel_ahead_object_hazard={s.aheadHazard}"
   IO.println s!"STAT rel_unmodelled_refusals={s.unmodelledRefusals}"
+  IO.println s!"STAT rel_stale_handle_writes={s.staleWrites}"
+  IO.println s!"STAT rel_stale_handle_writes_older_than_durable={s.staleWritesOlder}"
   for (k, v) in s.harness.reverse do
     IO.println s!"STAT rel_h_{k}={v}"
   IO.println s!"STAT mismatches={s.mismatches}"
